@@ -853,16 +853,21 @@ def s10_combination_iterator(ctx, ck):
             continue
         r = p.outcome[1]
         v = [e.b for e in p.events if e.kind == "guard" and isinstance(e.a, tuple) and e.a[0] == "variantof" and isinstance(e.a[1], tuple) and e.a[1][0] == "try"]
+        if not v:
+            # (`self.combinations.next()?` is read by the walker as the match on the Option it abbreviates)
+            v = [{"Some": "Continue", "None": "Break"}.get(e.b, e.b) for e in p.events if e.kind == "guard" and isinstance(e.a, tuple) and e.a[0] == "variantof"
+                 and isinstance(e.a[1], tuple) and e.a[1][0] == "next" and mir.strip(e.a[1][1]) in (T("field", sa, "combinations"), T("iter", T("field", sa, "combinations"), "fwd"))]
         if v == ["Continue"]:
             seen.add("some")
             inner_ = r[3][0] if isinstance(r, tuple) and r[0] == "agg" and r[2] == "Some" else None
             f = dict(zip(inner_[4], inner_[3])) if isinstance(inner_, tuple) and inner_[0] == "agg" and len(inner_) > 4 else {}
             t = f.get("tuple")
-            oka = oka and mir.strip(f.get("it")) == T("field", sa, "iterable") and isinstance(t, tuple) and t[0] == "okval" and isinstance(t[1], tuple) and t[1][0] == "next" \
-                and mir.strip(t[1][1]) == T("field", sa, "combinations")
+            from_counter = (isinstance(t, tuple) and t[0] == "okval" and isinstance(t[1], tuple) and t[1][0] == "next" and mir.strip(t[1][1]) == T("field", sa, "combinations")) \
+                or (isinstance(t, tuple) and t[0] == "elem" and mir.strip(t[1]) in (T("field", sa, "combinations"), T("iter", T("field", sa, "combinations"), "fwd")))
+            oka = oka and mir.strip(f.get("it")) == T("field", sa, "iterable") and from_counter
         elif v == ["Break"]:
             seen.add("end")
-            oka = oka and isinstance(r, tuple) and r[0] == "from_residual"
+            oka = oka and isinstance(r, tuple) and (r[0] == "from_residual" or (r[0] == "agg" and r[2] == "None"))
         else:
             oka = False
     ck.ob("C13-S10", an.path, "one-AliasCombination-per-digit-vector,ending-when-the-counter-ends", oka and seen == {"some", "end"})
